@@ -63,30 +63,32 @@ ASSUME \E i \in 0..(NH - 1) : ~HttpTransparent(<<HttpSigAt(i)>>, {"D02_http_any_
 
 \* ---- B: text of a database; grouping g: 0 = one label per signature, 1 = all under one label, 2 = first two share a label, 3 / 4 = with labels that have no signatures
 Lbl(n) == "label = s:unix:Os" \o ToString(n) \o ":f" \o ToString(n)
+\* g = 5: the third entry is declared under the SAME label text as the first (a label may be declared again later in a section; the
+\* entries keep their places in the file)
 Empty(n) == "label = s:unix:Empty" \o ToString(n) \o ":none"
 RECURSIVE Lines(_, _, _, _)
 Lines(texts, g, k, acc) ==
   IF k > Len(texts) THEN acc
-  ELSE LET newlabel == (k = 1) \/ g \in {0, 3, 4} \/ (g = 2 /\ k = 3)
+  ELSE LET newlabel == (k = 1) \/ g \in {0, 3, 4, 5} \/ (g = 2 /\ k = 3)
            \* labels without any signature line: before every label (g = 3), between the first two entries (g = 4)
            empties == IF (g = 3 /\ newlabel) \/ (g = 4 /\ k = 2) THEN <<Empty(k)>> ELSE <<>>
-       IN Lines(texts, g, k + 1, acc \o empties \o (IF newlabel THEN <<Lbl(k)>> ELSE <<>>) \o <<"sig = " \o texts[k]>>)
+       IN Lines(texts, g, k + 1, acc \o empties \o (IF newlabel THEN <<Lbl(IF g = 5 /\ k = 3 THEN 1 ELSE k)>> ELSE <<>>) \o <<"sig = " \o texts[k]>>)
 DbText(section, texts, g) == Join(<<"[" \o section \o "]">> \o Lines(texts, g, 1, <<>>), "\n") \o "\n"
 
 TcpObsSeq == SetToSeq(TcpObs)
 HttpObsSeq == SetToSeq(HttpObs)
 EmitTcp(i) ==
   LET sigs == [k \in 1..Len(DbAt(NT, i)) |-> TcpSigAt(DbAt(NT, i)[k])]
-      g == i % 5
-      table == IF (i \div 5) % 2 = 0 THEN "tcp_request" ELSE "tcp_response"
+      g == i % 6
+      table == IF (i \div 6) % 2 = 0 THEN "tcp_request" ELSE "tcp_response"
   IN TcpTransparent(sigs) /\
      PrintT("REPLAY " \o ToJson([kind |-> "tcp", i |-> i, table |-> table, g |-> g,
               db |-> DbText(IF table = "tcp_request" THEN "tcp:request" ELSE "tcp:response", [k \in 1..Len(sigs) |-> PrintTcpSig(sigs[k])], g),
               sver |-> [k \in 1..Len(sigs) |-> sigs[k].ver], obs |-> TcpObsSeq]))
 EmitHttp(i) ==
   LET sigs == [k \in 1..Len(DbAt(NH, i)) |-> HttpSigAt(DbAt(NH, i)[k])]
-      g == i % 5
-      table == IF (i \div 5) % 2 = 0 THEN "http_request" ELSE "http_response"
+      g == i % 6
+      table == IF (i \div 6) % 2 = 0 THEN "http_request" ELSE "http_response"
   IN HttpTransparent(sigs, {}) /\
      PrintT("REPLAY " \o ToJson([kind |-> "http", i |-> i, table |-> table, g |-> g,
               db |-> DbText(IF table = "http_request" THEN "http:request" ELSE "http:response", [k \in 1..Len(sigs) |-> PrintHttpSig(sigs[k])], g),
@@ -107,9 +109,14 @@ EmitPair(k) ==
       sigs == IF k % 2 = 1 THEN <<a, b>> ELSE <<b, a>>
       table == IF (k \div 2) % 2 = 0 THEN "tcp_request" ELSE "tcp_response"
       obs == <<InstOf(a), InstOf(b), [InstOf(b) EXCEPT !.olen = 8], [InstOf(a) EXCEPT !.wscale = 9]>>
-  IN PrintT("REPLAY " \o ToJson([kind |-> "tcp", i |-> 1000000 + k, table |-> table, g |-> 0,
+      \* the same two, followed by a third entry declared under the FIRST entry's label again (grouping 5): the entries keep their places
+      sigs3 == sigs \o <<[B0 EXCEPT !.ittl = TtlV(255)]>>
+  IN /\ PrintT("REPLAY " \o ToJson([kind |-> "tcp", i |-> 1000000 + k, table |-> table, g |-> 0,
               db |-> DbText(IF table = "tcp_request" THEN "tcp:request" ELSE "tcp:response", [j \in 1..2 |-> PrintTcpSig(sigs[j])], 0),
               sver |-> [j \in 1..2 |-> sigs[j].ver], obs |-> obs]))
+     /\ PrintT("REPLAY " \o ToJson([kind |-> "tcp", i |-> 1500000 + k, table |-> table, g |-> 5,
+              db |-> DbText(IF table = "tcp_request" THEN "tcp:request" ELSE "tcp:response", [j \in 1..3 |-> PrintTcpSig(sigs3[j])], 5),
+              sver |-> [j \in 1..3 |-> sigs3[j].ver], obs |-> obs]))
 HB0 == [ver |-> "1", horder |-> <<H("Host"), HO("Accept"), H("User-Agent")>>, habsent |-> <<H("Keep-Alive")>>, sw |-> "curl"]
 HFieldVariants == <<[HB0 EXCEPT !.ver = "0"], [HB0 EXCEPT !.ver = "*"], [HB0 EXCEPT !.horder = <<H("Host"), H("User-Agent")>>], [HB0 EXCEPT !.horder = <<H("User-Agent"), H("Host")>>],
                     [HB0 EXCEPT !.habsent = <<>>], [HB0 EXCEPT !.habsent = <<H("Keep-Alive"), H("Accept-Charset")>>], [HB0 EXCEPT !.sw = ""], [HB0 EXCEPT !.sw = "Wget"]>>
@@ -119,9 +126,13 @@ EmitHPair(k) ==
       sigs == IF k % 2 = 1 THEN <<a, b>> ELSE <<b, a>>
       table == IF (k \div 2) % 2 = 0 THEN "http_request" ELSE "http_response"
       obs == <<HInstOf(a, "1"), HInstOf(b, "1"), HInstOf(b, "2"), HInstOf(b, "3"), HInstOf(a, "0")>>
-  IN PrintT("REPLAY " \o ToJson([kind |-> "http", i |-> 2000000 + k, table |-> table, g |-> 0,
+      sigs3 == sigs \o <<[HB0 EXCEPT !.sw = "Third"]>>
+  IN /\ PrintT("REPLAY " \o ToJson([kind |-> "http", i |-> 2000000 + k, table |-> table, g |-> 0,
               db |-> DbText(IF table = "http_request" THEN "http:request" ELSE "http:response", [j \in 1..2 |-> PrintHttpSig(sigs[j])], 0),
               sver |-> [j \in 1..2 |-> sigs[j].ver], obs |-> obs]))
+     /\ PrintT("REPLAY " \o ToJson([kind |-> "http", i |-> 2500000 + k, table |-> table, g |-> 5,
+              db |-> DbText(IF table = "http_request" THEN "http:request" ELSE "http:response", [j \in 1..3 |-> PrintHttpSig(sigs3[j])], 5),
+              sver |-> [j \in 1..3 |-> sigs3[j].ver], obs |-> obs]))
 
 Mine(n, s) == {j \in 0..((n - 1 - Offset) \div Stride) : j % Shards = s}
 Init == shard \in 0..(Shards - 1) /\ phase = 0
